@@ -490,6 +490,8 @@ func (t *State) PlayAndRepost(blockid []byte, needRepost bool, isRootTx bool) (e
 	})
 	t.utxo.Mutex.Lock()
 	defer t.utxo.Mutex.Unlock()
+	t.utxo.OpenBatchOutputs()
+	defer t.utxo.CloseBatchOutputs()
 	defer func() {
 		if err != nil {
 			t.discardUncommittedView()
@@ -737,6 +739,8 @@ func (t *State) Walk(blockid []byte, ledgerPrune bool) error {
 	})
 	t.utxo.Mutex.Lock()
 	defer t.utxo.Mutex.Unlock()
+	t.utxo.OpenBatchOutputs()
+	defer t.utxo.CloseBatchOutputs()
 	xTimer.Mark("walk_get_lock")
 
 	// 首先先把所有的unconfirm回滚，记录被回滚的交易，然后walk结束后恢复被回滚的合法未确认交易
@@ -913,6 +917,7 @@ func (t *State) doTxInternal(tx *pb.Transaction, batch kvdb.Batch, cacheFiller *
 		utxoKey := utxo.GenUtxoKeyWithPrefix(addr, txid, offset)
 		batch.Delete([]byte(utxoKey)) // 删除用掉的utxo
 		t.utxo.UtxoCache.Remove(string(addr), utxoKey)
+		t.utxo.DelBatchOutput(utxoKey)
 		t.utxo.SubBalance(addr, big.NewInt(0).SetBytes(txInput.Amount))
 	}
 	for offset, txOutput := range tx.TxOutputs {
@@ -934,6 +939,7 @@ func (t *State) doTxInternal(tx *pb.Transaction, batch kvdb.Batch, cacheFiller *
 			return uErr
 		}
 		batch.Put([]byte(utxoKey), uItemBinary) // 插入本交易产生的utxo
+		t.utxo.AddBatchOutput(utxoKey, uItem)
 		if cacheFiller != nil {
 			cacheFiller.Add(func() {
 				t.utxo.UtxoCache.Insert(string(addr), utxoKey, uItem)
@@ -1085,6 +1091,7 @@ func (t *State) undoTxInternal(tx *pb.Transaction, batch kvdb.Batch) error {
 		uItem.Amount.SetBytes(amount)
 		uItem.FrozenHeight = txInput.FrozenHeight
 		t.utxo.UtxoCache.Insert(string(addr), utxoKey, uItem)
+		t.utxo.AddBatchOutput(utxoKey, uItem)
 		uBinary, uErr := uItem.Dumps()
 		if uErr != nil {
 			return uErr
@@ -1109,6 +1116,7 @@ func (t *State) undoTxInternal(tx *pb.Transaction, batch kvdb.Batch) error {
 		// 删除产生的UTXO
 		batch.Delete([]byte(utxoKey))
 		t.utxo.UtxoCache.Remove(string(addr), utxoKey)
+		t.utxo.DelBatchOutput(utxoKey)
 		t.utxo.SubBalance(addr, txOutputAmount)
 		t.log.Trace("undo delete utxo key", "utxoKey", utxoKey)
 		if tx.Coinbase {
@@ -1229,6 +1237,7 @@ func (t *State) undoPayFee(tx *pb.Transaction, batch kvdb.Batch, block *pb.Inter
 		// 删除产生的UTXO
 		batch.Delete([]byte(utxoKey))
 		t.utxo.UtxoCache.Remove(string(addr), utxoKey)
+		t.utxo.DelBatchOutput(utxoKey)
 		t.utxo.SubBalance(addr, big.NewInt(0).SetBytes(txOutput.Amount))
 		t.log.Info("undo delete fee utxo key", "utxoKey", utxoKey)
 	}
@@ -1351,6 +1360,7 @@ func (t *State) payFee(tx *pb.Transaction, batch kvdb.Batch, block *pb.InternalB
 		batch.Put([]byte(utxoKey), uItemBinary) // 插入本交易产生的utxo
 		t.utxo.AddBalance(addr, uItem.Amount)
 		t.utxo.UtxoCache.Insert(string(addr), utxoKey, uItem)
+		t.utxo.AddBatchOutput(utxoKey, uItem)
 		t.log.Trace("    insert fee utxo key", "utxoKey", utxoKey, "amount", uItem.Amount.String())
 	}
 	return nil
